@@ -76,9 +76,17 @@ Definition json_is_i64 (v : json) : bool :=
 (* i32::try_from(i64).is_ok() *)
 Definition j_fits_i32 (z : Z) : bool := (- j_two31 <=? z) && (z <? j_two31).
 
-(* `as_f64().is_some_and(|f| f.abs() < MAX_SAFE_INT as f64)` on an integer number.
+(* Number::is_u64: PosInt n (JInt z stands for PosInt z exactly when 0 <= z, see json_wf) *)
+Definition json_is_u64 (v : json) : bool :=
+  match v with JInt z => 0 <=? z | _ => false end.
+
+(* `as_f64().is_some_and(|f| f.abs() <= MAX_SAFE_INT as f64)` on an integer number.
    u64/i64 -> f64 conversion rounds to nearest and is monotone; it is exact up to 2^53 and
-   MAX_SAFE_INT = 2^53 - 1 is itself an f64, so  |f64(z)| < 2^53 - 1  <->  |z| < 2^53 - 1. *)
+   MAX_SAFE_INT = 2^53 - 1 is itself an f64, so  |f64(z)| <= 2^53 - 1  <->  |z| <= 2^53 - 1
+   (2^53 converts to itself, which is greater). *)
+Definition json_int_as_f64_abs_le_max_safe (z : Z) : bool := Z.abs z <=? j_max_safe_int.
+(* the comparison before the repair (`f.abs() < MAX_SAFE_INT as f64`): |f64(z)| < 2^53 - 1  <->  |z| < 2^53 - 1;
+   only used by Coerce.cv_scalar_ok_old *)
 Definition json_int_as_f64_abs_lt_max_safe (z : Z) : bool := Z.abs z <? j_max_safe_int.
 
 (* ---- well-formedness: what a serde_json_bytes value can be ---- *)
